@@ -6,7 +6,8 @@ import antlr4
 from yldprolog.prologLexer import prologLexer
 PROP = 'C10'
 
-FOREIGN = ['"', '#', '{', '}', '@', '&', '^', '~', '`', '?', '*', '$', ':', '\\', 'é', ' ', '\x00', '\x0c']
+FOREIGN = ['"', '#', '{', '}', '@', '&', '^', '~', '`', '?', '*', '$', ':', '\\', 'é', ' ', '\x00', '\x0c',
+           '\ufeff', '\u200b', '\u00a0', '\uff08', '\u00b2', '\u2028']     # invisible and compatibility characters
 INSERT_TOKENS = [')', '(', '.', ',', ']', '[', '|', ';', '->', '/', ':-', '!', 'x', 'X', '7', "'q'", '=', '-', '\\+', "'", '%']
 
 
